@@ -417,7 +417,7 @@ func check(tt *testing.T, p Plan) (pbt.Info, error) {
 	close(start)
 	wg.Wait()
 	if ctx.Err() != nil {
-		return info, fmt.Errorf("HARNESS-TIMEOUT: plan did not finish within the watchdog (inconclusive)")
+		return info, pbt.Inconclusive("plan did not finish within the 120 s watchdog")
 	}
 	overlapped := len(p.Workers) >= 2 && total >= 4
 	if mem != nil {
